@@ -3,13 +3,21 @@
 API-level part (SPEC+O): Clipper64::Execute with open subjects is compared with the exact specification oracle
 extracted from coq/model/OpenClipSpec.v on generated general-position inputs, all 4 clip types x 4 fill rules,
 paths and polytree execution, default and CLIPPER2_HI_PRECISION builds, 7 coordinate regimes.
-Hypothesis (the quantifier "open polylines together with closed subject and clip paths in general position"): the Coq
-predicate general_position_C05 - general position of the WHOLE input as the property set defines the term (C01): every
-input vertex and every proper crossing of two input edges, open or closed, is >= 3 units from every input edge it does
-not lie on by construction (no touching, no overlapping collinear edges, no three edges through one point).  Open
-polylines that fold back on themselves or close up (overlapping collinear segments, first = last) are therefore outside
-the quantifier; a minority of such inputs is still generated and evaluated, disagreements there are recorded in the
-evidence (coverage.outside_quantifier) and never reported as violations.  Proper self-crossings are inside.
+Judged inputs (the quantifier "open polylines together with closed subject and clip paths in general position" is read as:
+closed paths in general position, open polylines arbitrary), in two classes decided by Coq predicates:
+  strict  general_position_C05: general position of the WHOLE input in C01's sense (every input vertex and every proper crossing
+          of two input edges, open or closed, >= 3 units from every input edge it does not lie on by construction).  Judged by
+          the exact run-based specification [check_open]: vertices/segments within 1.5, kept runs covered and dropped runs
+          uncovered outside 3 units of a cut, length within 3 units per cut.
+  broad   judged_broad only: closed paths in general position, open polylines not (vertices 0..3 units from or on closed edges,
+          hairpins 1-2 units wide through an edge, crossings close together or next to a closed vertex, fold-backs, first = last).
+          There the engine may legitimately place, merge or invent cuts inside the tolerances, so only what no reading of the
+          tolerances can excuse is reported [check_open_robust]: points >= 3 units from EVERY closed edge lie robustly in one
+          cell; a subject sample point there that must be kept and has no solution segment within 2 units is missing, a solution
+          point there that must not be kept is extra; solution vertices (and quarter points of solution segments) farther than
+          1.5 from every subject segment are off-subject.  No length clause.  Coordinates < 2^53 only (these shapes are measured
+          in units: cases are translated, never scaled).
+Both classes: crash/Execute false, tree vs paths, closed solution unchanged as a region by the open subjects.
 Failure modes (classifier keys):
   crash.open-boolop             the operation crashed, hung or threw
   execute-returned-false        Execute returned false
@@ -27,6 +35,10 @@ the engine computes every cut point, no longer represents all integers, so a cut
                                 ~2^-51 * extent * condition number of the worst crossing): every deviation is one
                                 that binary64 rounding of a cut point explains
   <key>@beyond-2^53             the failure persists with the widened tolerances: NOT explained by rounding
+Strict class below 2^53: a piece-extra / piece-missing / length failure of a case in which an open segment crosses a closed edge at
+an angle with sin < 2/3 is re-evaluated with ONLY the margin along the subject widened from 3 to 3 + 2/sin(angle):
+  open.cut-displaced@shallow-crossing   it disappears: the cut lies within the 1.5 units across but was displaced along the subject
+                                (swap noticed in a later scanbeam because both edges round to the same x at intermediate scanlines)
 """
 import glob, json, os, sys
 import vf
@@ -40,19 +52,25 @@ META = dict(
           "table equals the property text (C05_open_in_result_spec); a crossing parameter lies strictly inside the open segment and "
           "the point at it is exactly on the closed edge's line (C05_crossing_parameter); the pieces start at 0, end at 1 and are "
           "linked (C05_pieces_partition); the interval-cover test behind 'kept run covered' is sound (C05_cover_test_sound); the "
-          "hypothesis general_position_C05 is general position of the whole input, open and closed edges alike, and a polyline "
-          "folding back on itself is outside it (C05_hypothesis, C05_foldback_outside_hypothesis); plus (added by the integrator) "
-          "the sweep-line toggle logic for all event histories.  The extracted specification is compared with Clipper64::Execute "
-          "(paths and polytree, 16 rule combinations, two precision builds, 7 coordinate regimes within the library's coordinate "
-          "domain) on generated general-position inputs: every solution vertex/segment within 1.5 of one subject segment, kept runs "
-          "covered and dropped runs uncovered outside 3 units of a cut, length within 3 units per cut, closed solution unchanged by "
-          "the open subjects, tree and paths execution agree."),
+          "strict input class general_position_C05 is general position of the whole input, open and closed edges alike "
+          "(C05_hypothesis; a polyline folding back on itself is outside it, C05_foldback_outside_hypothesis, and is judged in the "
+          "broad class); plus (added by the integrator) the sweep-line toggle logic for all event histories.  The extracted "
+          "specification is compared with Clipper64::Execute (paths and polytree, 16 rule combinations, two precision builds) on "
+          "generated inputs of two classes.  Strict class (whole input in general position, 7 coordinate regimes within the "
+          "library's coordinate domain): every solution vertex/segment within 1.5 of one subject segment, kept runs covered and "
+          "dropped runs uncovered outside 3 units of a cut, length within 3 units per cut.  Broad class (closed paths in general "
+          "position, open polylines arbitrary: vertices 0..3 units from the clip boundary just crossed, hairpins 1-2 units wide, "
+          "segments through or past the tip of a closed vertex, fold-backs, loops; coordinates < 2^53), VALIDATED ONLY by a "
+          "Coq-defined robust pointwise test: at points >= 3 units from every closed edge the solution must contain what must be "
+          "kept (within 2 units) and nothing that must be dropped; off-subject vertices > 1.5.  Both classes: closed solution "
+          "unchanged as a region by the open subjects, tree and paths execution agree, no crash."),
     note=("Trusted: Coq kernel; extraction; OCaml/python glue; C++ harness; generators.  Not proved: constancy of the winding number "
-          "inside a piece (checked at 3 interior points of every piece of every case instead); the convexity argument that reduces "
-          "'segment within 1.5' to its two end points; the soundness of the margin and length-enclosure arithmetic; and everything "
-          "geometric inside the engine (cut positions, rounding, joining) — validated against the exact specification, not proved.  "
-          "On coordinates >= 2^53 the property fails (binary64 cut points; known finding open.cut-inexact@beyond-2^53); the key of "
-          "such a failure is selected by a paper forward-error bound, not a theorem."),
+          "inside a piece (checked at 3 interior points of every piece of every strict case instead); the convexity argument that "
+          "reduces 'segment within 1.5' to its two end points; the soundness of the margin and length-enclosure arithmetic; that a "
+          "point >= 3 units from every closed edge shares its cell with everything within 3 units (used on paper by the broad-class "
+          "test; no theorem covers the broad class); and everything geometric inside the engine (cut positions, rounding, joining) "
+          "— validated against the specification, not proved.  On coordinates >= 2^53 the property fails (binary64 cut points; known "
+          "finding open.cut-inexact@beyond-2^53); the key of such a failure is selected by a paper forward-error bound, not a theorem."),
     technique='Coq specification oracle + soundness lemmas for its checker + API/specification correspondence (SPEC+O)',
     category='proof',
 )
@@ -60,7 +78,7 @@ META = dict(
 CT = {1: 'Intersection', 2: 'Union', 3: 'Difference', 4: 'Xor'}
 FR = {0: 'EvenOdd', 1: 'NonZero', 2: 'Positive', 3: 'Negative'}
 ALL_COMBOS = [(ct, fr) for ct in CT for fr in FR]
-PRIORITY = ['crash.open-boolop', 'execute-returned-false', 'open.cut-inexact', 'open.vertex-off-subject', 'open.segment-off-subject', 'open.piece-extra',
+PRIORITY = ['crash.open-boolop', 'execute-returned-false', 'open.cut-inexact', 'open.cut-displaced', 'open.vertex-off-subject', 'open.segment-off-subject', 'open.piece-extra',
             'open.piece-missing', 'open.length', 'open.tree-vs-paths', 'open.closed-solution-changed']
 
 
@@ -114,6 +132,18 @@ MAX_COORD = (2 ** 63 - 1) >> 2      # clipper.core.h MAX_COORD: the coordinate d
 def beyond53(case):
     """some coordinate is not below 2^53: binary64 (in which the engine computes every cut point) has spacing >= 2 there"""
     return polys.maxabs([case['S'], case['C'], case['O']]) >= 2 ** 53
+
+
+SHALLOW_KEYS = ('open.piece-extra', 'open.piece-missing', 'open.length')
+
+
+def shallow_tols(case):
+    """the property's tolerances with only the margin along the subject widened to 3 + 2/sin(smallest crossing angle); None when no
+    open x closed crossing is shallow (classification only, see gen/openpaths.py shallow_margin)"""
+    if '_shallow' not in case:
+        m = openpaths.shallow_margin(case['S'], case['C'], case['O'])
+        case['_shallow'] = None if m is None else (3, 2, m)
+    return case['_shallow']
 
 
 def relaxed_tols(case):
@@ -176,6 +206,7 @@ def evaluate(ctx, exes, oracle, cases, combos_of=None, count=True):
     stats = dict(gp_rejected=0, inconsistent=0, nontrivial=set(), accepted=[], broad=[], broad_runs=0, broad_nontrivial=set(), broad_not_judged_beyond_2_53=0,
                  skipped_after_crashes=0)
     recheck = []     # (failure dict) geometric failures on coordinates beyond 2^53, to be classified with relaxed tolerances
+    recheck_shallow = []     # strict-class coverage/length failures of cases with a shallow crossing
     for ci, (c, line) in enumerate(zip(cases, res)):
         if line.startswith('ERR'):
             raise vf.Infra('openclip oracle error: %s' % line[:300])
@@ -273,6 +304,8 @@ def evaluate(ctx, exes, oracle, cases, combos_of=None, count=True):
                 f = dict(key=k, ci=ci, what=w, replay=dict(base, **x))
                 if k in GEO and big:
                     recheck.append(f)
+                elif k in SHALLOW_KEYS and not broad and shallow_tols(c) is not None:
+                    recheck_shallow.append(f)
                 fails_out.append(f)
     # classification of geometric failures beyond 2^53: explained by the binary64 resolution of the cut points?
     if recheck:
@@ -295,6 +328,27 @@ def evaluate(ctx, exes, oracle, cases, combos_of=None, count=True):
                 else:
                     f['what'] += '  [coordinates >= 2^53; persists with tolerances widened to %s/%s and %s units: NOT explained by rounding]' % relaxed_tols(cases[ident[0]])
                     f['key'] += BEYOND
+    # classification of coverage/length failures next to a shallow crossing: only the margin ALONG the subject is widened,
+    # the 1.5 units across stay
+    if recheck_shallow:
+        groups = {}
+        for f in recheck_shallow:
+            r = f['replay']
+            groups.setdefault((f['ci'], r['ct'], r['fr'], r['build']), []).append(f)
+        idents = sorted(groups)
+        rl = [open_line(shallow_tols(cases[ci]), cases[ci], [(ct, fr, groups[(ci, ct, fr, b)][0]['replay']['solution'])]) for (ci, ct, fr, b) in idents]
+        res2, fails = vf.par_lines(oracle, rl, timeout=1500)
+        if fails:
+            raise vf.Infra('openclip oracle failed (shallow pass): %s' % str(fails[0][2] or fails[0][3])[:600])
+        for ident, line in zip(idents, res2):
+            rep = parse_report(line.split(' | ')[1])
+            m = shallow_tols(cases[ident[0]])[2]
+            if report_clean(rep):
+                for f in groups[ident]:
+                    f['what'] += ('  [an open segment crosses a closed edge at a shallow angle; passes when the margin along the subject around a cut is '
+                                  'widened from 3 to %d = 3 + 2/sin(angle) units, with the 1.5 units across unchanged: the cut was placed on the boundary of '
+                                  'a later scanbeam]' % m)
+                    f['key'] = 'open.cut-displaced@shallow-crossing'
     return fails_out, stats
 
 
@@ -487,16 +541,21 @@ def run(ctx):
                 pass
             ctx.log('shrunk %s' % key)
         ctx.violation(key, f['what'] + ('  [%d failing (case, rules) with this key]' % len(fs)), replay=f['replay'])
-    ctx.cov['rule'] = ('closed subject/clip sets from gen/polys.py (8 families) plus multiply-wound sets, with 1-3 open polylines of 2-8 vertices from 8 '
-                       'families (random walks incl. proper self-crossings, chords through everything, inside->outside, nearly horizontal zigzags, exactly '
-                       'axis-parallel, vertices on closed-vertex scanlines, flat local extrema made of several horizontal segments, vertices 4-6 units from '
-                       'closed edges, two-point), accepted by the extracted Coq predicate general_position_C05 and scaled/translated exactly into 7 '
-                       'coordinate regimes up to 2^61; 1 case in 8 instead gets a polyline from 3 degenerate families (180-degree spikes, horizontal spikes, '
-                       'first=last loops) and is evaluated outside the hypothesis (coverage.outside_quantifier); each case runs under all 16 clip type x '
-                       'fill rule combinations, random PreserveCollinear/ReverseSolution, paths and polytree execution, with and without the open subjects, '
-                       'default and CLIPPER2_HI_PRECISION builds; non-trivial = distinct (case, clip type, fill rule) whose specification has at least one '
-                       'cut and one kept run')
-    ctx.assumptions += ['general position as decided by model/OpenClipSpec.v general_position_C05: base/GenPos.v for the closed paths; open vertices and '
+    ctx.cov['rule'] = ('closed subject/clip sets from gen/polys.py (8 families) plus multiply-wound sets, in general position, with 1-3 open polylines of 2-8 '
+                       'vertices.  3 cases in 4 (strict class): 9 families (random walks incl. proper self-crossings, chords through everything, '
+                       'inside->outside, nearly horizontal zigzags, exactly axis-parallel, vertices on closed-vertex scanlines, flat local extrema made of '
+                       'several horizontal segments, peak + horizontal crossing its own arm, vertices 4-6 units from closed edges, two-point), accepted by '
+                       'the extracted Coq predicate general_position_C05 and scaled/translated exactly into 7 coordinate regimes up to 2^61.  1 case in 4 '
+                       '(broad class, Coq predicate judged_broad): at least one polyline from 7 near-degenerate families (a vertex 0..3 units beyond the '
+                       'closed edge just crossed followed by 1-2 more points, hairpins 1-3 units wide through an edge, grazing vertices, long segments '
+                       'passing 0..5 units from a closed vertex, 180-degree spikes, horizontal spikes, first=last loops), translated by 0..2^51, never '
+                       'scaled.  Each case runs under all 16 clip type x fill rule combinations, random PreserveCollinear/ReverseSolution, paths and '
+                       'polytree execution, with and without the open subjects, default and CLIPPER2_HI_PRECISION builds; non-trivial = distinct (case, clip '
+                       'type, fill rule) whose specification has at least one cut and one kept run (strict) / at least one robustly kept sample point (broad)')
+    ctx.assumptions += ['quantifier read as: closed paths in general position (base/GenPos.v), open polylines arbitrary non-degenerate polylines; inputs whose '
+                        'open polylines are not in general position are judged only by the robust pointwise test (model/OpenClipSpec.v check_open_robust): '
+                        'nothing within 3 units of a closed edge is judged there, and no length clause',
+                        'strict class = general position as decided by model/OpenClipSpec.v general_position_C05: base/GenPos.v for the closed paths; open vertices and '
                         'closed vertices >= 3 units from the edges of the other kind; open vertices >= 3 units from every open segment they are not an end '
                         'of; every proper crossing of two input edges of any kind >= 3 units from every third input edge',
                         'constancy of the winding number inside a piece is not proved; it is checked at the 1/4, 1/2 and 3/4 points of every piece of every case',
